@@ -492,6 +492,9 @@ func run(p *hx.Plan) []hx.Event {
 				e.inc.Target.SetFail("default", hx.S(st, "c"), hx.B(st, "on"))
 			}
 			ev["c"], ev["on"] = hx.S(st, "c"), hx.B(st, "on")
+		case "mqfail": // from now on opening a stream on source pchannels with that prefix fails ("" = works again)
+			e.w.SetMQFail(hx.S(st, "prefix"))
+			ev["prefix"] = hx.S(st, "prefix")
 		case "pause":
 			_, err := e.inc.CDC.Pause(&request.PauseRequest{TaskID: hx.S(st, "task")})
 			ev["task"], ev["err"] = hx.S(st, "task"), err != nil
